@@ -79,6 +79,20 @@ mod routing_table;
 mod store;
 mod types;
 
+/// Verification hooks: re-exports of items that are `pub` inside the private sub-modules.
+#[cfg(feature = "verif")]
+pub mod verif_export {
+    pub use super::{
+        bucket::{KBucket, KBucketEntry},
+        message::KademliaMessage,
+        query::{QueryAction, QueryEngine},
+        record::ProviderRecord,
+        routing_table::RoutingTable,
+        store::{MemoryStore, MemoryStoreAction, MemoryStoreConfig},
+        types::{ConnectionType, Distance, KademliaPeer, Key, KeyBytes},
+    };
+}
+
 mod schema {
     pub(super) mod kademlia {
         include!(concat!(env!("OUT_DIR"), "/kademlia.rs"));
